@@ -347,7 +347,7 @@ func c18CacheFill(r *fw.Run, p *fw.Program) {
 				if bo.Op == token.EQL {
 					fail = b.Succs[1]
 				}
-				if c18Reaches(fail, mu.Block()) && !c18FlagExcludes(fail, mu.Block()) {
+				if c18Reaches(fail, mu.Block()) && !c18FlagExcludes(fail, mu.Block(), errv) {
 					swallowed = p.Rel(bo.Pos())
 				}
 			}
@@ -464,10 +464,13 @@ func c18EvalCopyOf(fn *ssa.Function) (ssa.Value, *ssa.Function, *ssa.Alloc) {
 	return nil, nil, nil
 }
 
-// c18FlagExcludes: the block `at` is guarded by a boolean that every path through `fail` sets to the losing
-// constant (cacheable := true; if err != nil { ...; cacheable = false }; if cacheable { store }): reaching `at`
-// from `fail` is then infeasible although the CFG has the path.
-func c18FlagExcludes(fail, at *ssa.BasicBlock) bool {
+// c18FlagExcludes: reaching the block `at` from `fail` (the failing side of the test of errv) is infeasible
+// although the CFG has the path: `at` is guarded either by the success test of the same error value (directly or
+// through a boolean local defined once as errv ==/!= nil, in the right polarity), or by a boolean that every
+// path through `fail` sets to the losing constant (cacheable := true; if err != nil { ...; cacheable = false };
+// if cacheable { store }). A flag computed from another error, tested the wrong way round, or not tested at all
+// excludes nothing.
+func c18FlagExcludes(fail, at *ssa.BasicBlock, errv ssa.Value) bool {
 	for _, g := range fw.Guards(at) {
 		want := g.True
 		cond := g.Cond
@@ -477,6 +480,20 @@ func c18FlagExcludes(fail, at *ssa.BasicBlock) bool {
 				break
 			}
 			cond, want = u.X, !want
+		}
+		// the guard is the success test of the very same error value, in either spelling, possibly held in a
+		// boolean local (useCache := err == nil ... if useCache { store }): `at` runs only when errv == nil
+		if bo, ok := cond.(*ssa.BinOp); ok && (bo.Op == token.EQL || bo.Op == token.NEQ) {
+			var ev ssa.Value
+			if c, isC := bo.Y.(*ssa.Const); isC && c.IsNil() {
+				ev = bo.X
+			} else if c, isC := bo.X.(*ssa.Const); isC && c.IsNil() {
+				ev = bo.Y
+			}
+			if ev != nil && ev == errv && (bo.Op == token.EQL) == want {
+				return true
+			}
+			continue
 		}
 		ph, ok := cond.(*ssa.Phi)
 		if !ok || !c18Reaches(fail, ph.Block()) {
